@@ -1,7 +1,9 @@
 package props
 
 import (
+	"bytes"
 	"fmt"
+	"math"
 	"os"
 	"strconv"
 	"strings"
@@ -170,6 +172,26 @@ func TestC09Big(t *testing.T) {
 				msg = msg[:2000] + "…"
 			}
 			t.Fatalf("observer %s on a frame of %d rows with one cell of 1.5 MiB: %s", name, n, msg)
+		}
+	}
+	// observers tell different values apart: single-cell frames holding the special floats (infinities included, which
+	// the JSON denotation check leaves out) are written differently from one another by every writer
+	specials := []float64{math.Inf(1), math.Inf(-1), math.NaN(), math.MaxFloat64, -math.MaxFloat64, 0, math.Copysign(0, -1), 5e-324, 1}
+	outs := map[string]map[string]float64{"ToCSV": {}, "ToJSON": {}, "String": {}}
+	for _, f := range specials {
+		one := qframe.New(map[string]interface{}{"f": []float64{f}})
+		var cb, jb bytes.Buffer
+		if err := one.ToCSV(&cb); err != nil {
+			t.Fatal(err)
+		}
+		if err := one.ToJSON(&jb); err != nil {
+			t.Fatal(err)
+		}
+		for name, text := range map[string]string{"ToCSV": cb.String(), "ToJSON": jb.String(), "String": one.String()} {
+			if other, dup := outs[name][text]; dup {
+				t.Fatalf("%s writes the cells %v and %v alike: %q", name, other, f, text)
+			}
+			outs[name][text] = f
 		}
 	}
 	evC09.CaseHash(true, seed, func() string { return fmt.Sprintf("volume case: ToCSV/ToJSON of %d rows incl. a cell of 1.5 MiB", n) }, "multi-MiB-output")
